@@ -236,7 +236,8 @@ def file_faults(w, rng):
     # `vars` of the file lists a variable with a free, non-adjacent
     # level first, then one whose level conflicts with the manager
     n = len(names)
-    lv2 = {'extra': n + 1}
+    ex1, ex2 = (f'extra{rng.randrange(10 ** 9)}' for _ in range(2))
+    lv2 = {ex1: n + 1}
     if n >= 2:
         lv2[names[1]] = 0
         lv2[names[0]] = 1
@@ -244,7 +245,7 @@ def file_faults(w, rng):
             lv2[v] = i + 2
     else:
         lv2[names[0]] = 0
-    lv2['extra2'] = n
+    lv2[ex2] = n
     o2 = sorted(lv2, key=lv2.get)
     src2 = _a.BDD(lv2)
     g = _a.Function(build(src2._bdd, random_table(rng, Space(o2), 0.9),
@@ -314,6 +315,23 @@ def file_faults(w, rng):
 
 
 # ---------------------------------------------------------- injection
+def _follow_names(w, site):
+    """The set of declared names may legitimately change (a loader
+    declares the variables of the file; an unused variable may be
+    undeclared): re-derive the recorded tables over the new names."""
+    now, was = set(w.raw.vars), set(w.sp.names)
+    if now == was:
+        return
+    if was - now:
+        # names were removed: no held function may depend on them
+        try:
+            w._respace(sorted(was & now))
+        except ValueError as e:
+            raise Violation(site, 'variable-in-use-was-undeclared', repr(e))
+    if now - set(w.sp.names):
+        w._respace(sorted(now))
+
+
 def inject(w, ctx, kind, thunk, info):
     """Run one rejected call; judge the manager right afterwards."""
     ctx.counters['faults_injected'] += 1
@@ -332,8 +350,7 @@ def inject(w, ctx, kind, thunk, info):
         ctx.counters['accepted_without_exception'] += 1
         ctx.note('accepted', kind)
         gc.collect()
-        if set(w.sp.names) < set(w.raw.vars):
-            w._respace(sorted(w.raw.vars))
+        _follow_names(w, kind)
         w.check(kind)
         return None
     ctx.counters['faults_raised'] += 1
@@ -357,8 +374,7 @@ def inject(w, ctx, kind, thunk, info):
             v.detail = dict(info, exc=exc, detail=v.detail,
                             vars_before=vars_before, vars=dict(raw.vars))
             raise
-        if set(w.sp.names) <= set(raw.vars):
-            w._respace(sorted(raw.vars))
+        _follow_names(w, site)
     try:
         w.check(site)
     except Violation as v:
